@@ -249,10 +249,9 @@ Definition K6 (m : nmap) : Prop := forall x, (sched (m x) <= NEVER)%N /\ (agg (m
 (* no parent cycles: a rank that strictly grows from parent to child *)
 Definition acyc (m : nmap) : Prop := exists rk : nat -> nat, forall c p, parent (m c) = Some p -> rk p < rk c.
 
-(* a destroyed object takes part in nothing *)
-Definition inert (n : node) : Prop :=
-  parent n = None /\ cur n = LNone /\ ls n = [] /\ lu n = [] /\ lr n = [].
-Definition dead_inert (m : nmap) : Prop := forall x, alive (m x) = false -> inert (m x).
+(* a destroyed object takes part in nothing: it has no parent and is nobody's parent *)
+Definition dead_inert (m : nmap) : Prop :=
+  forall x, alive (m x) = false -> parent (m x) = None /\ forall y, parent (m y) <> Some x.
 
 (* what holds at every instant, also in the middle of a sweep *)
 Record Core (m : nmap) : Prop := {
